@@ -117,7 +117,8 @@ func extraCmd(t *rapid.T, p *gen.Pool) []string {
 
 func runCase(t *rapid.T, engine string) {
 	keep := rapid.SampledFrom([]int{1, 2, 10}).Draw(t, "keepbackup")
-	sim, err := simkv.New(simkv.Options{Engine: engine, KeepBackup: keep})
+	policy := rapid.SampledFrom([]string{"wait_compact", "local_deletion"}).Draw(t, "policy") // both data layouts
+	sim, err := simkv.New(simkv.Options{Engine: engine, KeepBackup: keep, ExpPolicy: policy})
 	if err != nil {
 		t.Fatalf("HARNESS: %v", err)
 	}
@@ -339,7 +340,7 @@ func runCase(t *rapid.T, engine string) {
 				continue
 			}
 			if sim2 == nil {
-				sim2, err = simkv.New(simkv.Options{Engine: engine, KeepBackup: keep})
+				sim2, err = simkv.New(simkv.Options{Engine: engine, KeepBackup: keep, ExpPolicy: policy})
 				if err != nil {
 					fail("HARNESS: %v", err)
 				}
